@@ -136,7 +136,10 @@ func (e *Engine) LoadContracts() error {
 			fc.PkgPath = pkgPath
 			key := pkgPath + "." + fc.Name
 			if fc.Kind != "func" {
-				key = fc.Name // iface/extern contracts are keyed by their qualified display name
+				// iface/extern contracts are assumptions made by one package about
+				// the code it calls: they are keyed by that package and their
+				// display name, and apply only to calls made from that package
+				key = pkgPath + "|" + fc.Name
 			}
 			if e.Contracts[key] != nil {
 				return fmt.Errorf("%s:%d: duplicate contract for %s", f, fc.Line, fc.Name)
@@ -340,6 +343,12 @@ func (e *Engine) FindFunction(fc *FuncContract) *ssa.Function {
 }
 
 func (e *Engine) ContractFor(fn *ssa.Function) *FuncContract {
+	return e.ContractForIn(fn, "")
+}
+
+// ContractForIn: the contract of fn as seen from package pkgPath (extern
+// contracts are per calling package).
+func (e *Engine) ContractForIn(fn *ssa.Function, pkgPath string) *FuncContract {
 	if fn == nil {
 		return nil
 	}
@@ -347,10 +356,30 @@ func (e *Engine) ContractFor(fn *ssa.Function) *FuncContract {
 		return c
 	}
 	// extern contracts keyed by short display name, e.g. "strings.HasPrefix"
-	if c := e.Contracts[shortName(fn)]; c != nil && c.Kind == "extern" {
+	if pkgPath != "" {
+		if c := e.Contracts[pkgPath+"|"+shortName(fn)]; c != nil && c.Kind == "extern" {
+			return c
+		}
+	}
+	return nil
+}
+
+// Assumed: the iface/extern contract named name declared by package pkgPath.
+func (e *Engine) Assumed(pkgPath, name string) *FuncContract {
+	if c := e.Contracts[pkgPath+"|"+name]; c != nil && c.Assumed {
 		return c
 	}
 	return nil
+}
+
+// fnPkgPath: import path of the package a function (or closure) belongs to.
+func fnPkgPath(fn *ssa.Function) string {
+	for f := fn; f != nil; f = f.Parent() {
+		if f.Pkg != nil && f.Pkg.Pkg != nil {
+			return f.Pkg.Pkg.Path()
+		}
+	}
+	return ""
 }
 
 // pkgOf returns the loaded package that declares position pos.
